@@ -22,6 +22,7 @@ Not decided: equality of floating-point scores between chains.
 """
 from .. import protocols
 from ..harness import arr, index, integer, scalar
+from .. import tq
 from ..interp import State
 from ..terms import Dim, T, Term, V, vconst
 
@@ -57,7 +58,7 @@ def _mentions_S(t):
                 continue  # prefix read: the allocated extent is not observed
         if x.op == "dim":
             d = x.args[0]
-            if "S" in repr(d):
+            if tq._dim_mentions(d, "S"):
                 return True
             continue
         if x.op == "sym" and x.args[0] in ("S", "frac"):
@@ -234,7 +235,8 @@ def _buffer_reads(t):
 def _assume_warm(term, node, interp):
     if term.op == "raises":
         return False
-    if term.op == "gt" and term.args[0].op == "norm":
+    c = tq.cmp_parts(term)
+    if c is not None and c[2].op == "norm":
         return True  # residual column of an already selected item is re-orthogonalised
     return None
 
